@@ -73,6 +73,14 @@ func applyProfile(g *Gen, profile string) {
 		g.PEnv = 40
 		g.MaxOpts = 8
 		g.MaxArgv = 3
+	case "build":
+		g.PInvalid = 12
+		g.PLateOpts = 35
+		g.PUnset = 25
+		g.PEnv = 40
+		g.PHelp = 60
+		g.MaxDepth = 3
+		g.PSettingsLate = 40
 	case "soup":
 		g.PMalformed = 90
 		g.MaxArgv = 14
